@@ -172,6 +172,34 @@ Theorem C17_cycle_through_cache_accepted : forall prog st k o nm v,
 Proof. exact cycle_through_cache_accepted. Qed.
 Print Assumptions C17_cycle_through_cache_accepted.
 
+(* The read set outlives the evaluation that filled it (open issue "false rejection" made precise): a read
+   never removes anything from PROCESSING_SIGNALS, only a top-level assignment empties it; hence a function
+   that reads NOTHING and assigns x is rejected whenever some earlier evaluation read x and no top-level
+   assignment happened since, and is accepted right after one.  (The statement promises rejection of a
+   function that writes what it depends on; rejecting a non-dependent write is promised neither way.) *)
+Theorem C17_read_set_persists_until_assignment : forall prog,
+  (forall st k o nm, ps_mem o nm (ps st) = true -> ps_mem o nm (ps (fst (read_top prog st k))) = true) /\
+  (forall st o nm v st', set_obs prog false st o nm v = Some st' -> ps st' = []) /\
+  (forall st o nm v, alive st o = true -> ps_mem o nm (ps st) = true -> snd (run_acts prog [AWrite o nm v] st) = false) /\
+  (forall st o nm v, alive st o = true -> ps st = [] -> snd (run_acts prog [AWrite o nm v] st) = true).
+Proof.
+  exact (fun prog => conj (read_keeps_read_set prog) (conj (assign_clears_read_set prog)
+        (conj (false_rejection prog) (no_rejection_on_empty_read_set prog)))).
+Qed.
+Print Assumptions C17_read_set_persists_until_assignment.
+
+(* A rejected installation `owner.c = Computed(f)` leaves the Computed installed (dirty, not first, _value None,
+   parents = what f read before the ValueError).  Reading it afterwards - in any state reached without owner
+   collection - while none of those values has changed does NOT raise again: the comparison finds nothing
+   changed, the Computed is marked clean and its cached _value, None, is returned (code 2). *)
+Theorem C17_rejected_installation_then_read_returns_none : forall prog acts tp st,
+  Inv prog st ->
+  (forall k x, In (SComp k, x) (flat tp) -> (k < length prog)%nat) ->
+  (forall s x, In (s, x) (flat tp) -> Dsrc prog st s = x) ->
+  snd (reread_rejected prog acts tp st) = 2.
+Proof. exact rejected_then_read_none. Qed.
+Print Assumptions C17_rejected_installation_then_read_returns_none.
+
 (* ---------------------------------------------------------------- code-level T1
    The methods of mesa_signal.py the model transcribes are TRANSLATED from the current source on every run
    (harness/tables/computed_code.py -> Generated.Tables: control flow, conditions and statement order from the
@@ -331,4 +359,23 @@ Example C17_example_of_source :
   let st := final (c_comps ex_chain) [2%nat] (start ex_chain) pre in
   gen_signal_skeleton_ok = true /\ snd (g_read_top (c_comps ex_chain) st 1) = 21 /\
   gen_obs_set (c_comps ex_chain) true (fst (gen_obs_get (c_comps ex_chain) (Some 1%nat) st 0 0)) 0 0 5 = None.
+Proof. vm_compute. repeat split. Qed.
+
+(* false rejection: reading c1 re-runs its function, which reads x; a function that reads nothing and assigns x
+   is then rejected; after a top-level assignment it is accepted *)
+Example C17_example_false_rejection :
+  let prog := c_comps ex_chain in
+  let st := final prog [2%nat] (start ex_chain) [Assign 0 0 5; Read 1] in
+  let st' := final prog [2%nat] (start ex_chain) [Assign 0 0 5; Read 1; Assign 0 1 10] in
+  ps_mem 0 0 (ps st) = true /\ snd (run_acts prog [AWrite 0 0 9] st) = false /\
+  ps st' = [] /\ snd (run_acts prog [AWrite 0 0 9] st') = true.
+Proof. vm_compute. repeat split. Qed.
+
+(* rejected installation read again: None (2); when the function itself made a parent Computable dirty
+   before being rejected, the comparison re-runs the function and it is rejected again (1) *)
+Example C17_example_rejected_then_read :
+  let prog := c_comps ex_long in
+  let st := final prog [1%nat] (start ex_long) [Assign 0 0 1] in
+  snd (step prog [1%nat] st (WriteInsideKeep [ARead 0 0; AWrite 0 0 5])) = [4; 1; 2; 1; 1; 1; 1; 1; 1; 1] /\
+  firstn 3 (snd (step prog [1%nat] st (WriteInsideKeep [AWrite 0 0 5]))) = [4; 0; 0].
 Proof. vm_compute. repeat split. Qed.
